@@ -186,6 +186,11 @@ func (e *Env) evalIdent(name string) *Value {
 			t := a.Type().(*types.Pointer).Elem()
 			return &Value{T: t, L: e.st.cells[a]}
 		}
+		if e.fr != nil {
+			if lv, ok := e.fr.heapLocals[name]; ok {
+				return g.load(e.st, lv)
+			}
+		}
 	}
 	if e.fr != nil {
 		if v, ok := e.fr.params[name]; ok {
@@ -309,6 +314,11 @@ func (e *Env) evalAddr(x Expr) *LValue {
 			if a := e.lookupLocal(n.Name); a != nil {
 				t := a.Type().(*types.Pointer).Elem()
 				return &LValue{Kind: lvCell, Cell: a, Root: t, T: t}
+			}
+			if e.fr != nil {
+				if lv, ok := e.fr.heapLocals[n.Name]; ok {
+					return lv
+				}
 			}
 		}
 		return nil
